@@ -19,7 +19,7 @@ def run(ctx):
     ctx.model_check("evm/MCFrames", "evm/MCFrames" if not ctx.thorough else "evm/MCFramesThorough",
                     timeout=ctx.pick(1800, 3600), name="MCFrames", workers=4, coverage=ctx.thorough)
     tp = os.path.join(ctx.scratch, "trace.ndjson")
-    s, _ = ctx.drive(drv, ["-mode", "record", "-trace", tp, "-n", ctx.pick(120, 1500), "-maxevents", ctx.pick(250, 600)],
+    s, _ = ctx.drive(drv, ["-mode", "record", "-trace", tp, "-n", ctx.pick(60, 1000), "-maxevents", ctx.pick(250, 600)],
                      name="c29-record", timeout=1800)
     ok, consumed, total, r = ctx.validate("evm/FramesTrace", tp, ntraces=s["traces"], timeout=ctx.pick(1800, 7200))
     if not ok:
